@@ -59,7 +59,10 @@ func main() {
 			debugFieldLocks(p)
 			debugInvokes(p)
 			for _, f := range p.Funcs {
-				fmt.Println(p.FuncName(f), p.FuncPos(f))
+				fmt.Println(p.rawName(f), p.FuncPos(f))
+				if os.Getenv("WSCHECK_GENSIGS") != "" {
+					fmt.Printf("FUN\t%q: true,\n", p.rawName(f))
+				}
 			}
 			if os.Getenv("WSCHECK_GENSIGS") != "" {
 				callers := map[string]map[string]bool{}
@@ -84,16 +87,16 @@ func main() {
 				for _, f := range p.Funcs {
 					ps, fvs := paramsOf(f)
 					if len(ps) > 0 {
-						fmt.Printf("PRM\t%q: %#v,\n", p.FuncName(f), varList(ps))
+						fmt.Printf("PRM\t%q: %#v,\n", p.rawName(f), varList(ps))
 					}
 					if len(fvs) > 0 {
-						fmt.Printf("FVS\t%q: %#v,\n", p.FuncName(f), varList(fvs))
+						fmt.Printf("FVS\t%q: %#v,\n", p.rawName(f), varList(fvs))
 					}
 				}
 				p.structFields(func(key, typ string, v *types.Var, idx int) { fmt.Printf("FLD\t%q: %q,\n", key, fmt.Sprintf("%d|%s", idx, typ)) })
 				for _, f := range p.Funcs {
 					if f.Parent() == nil {
-						fmt.Printf("SIG\t%q: %q,\n", p.FuncName(f), p.sigKey(f))
+						fmt.Printf("SIG\t%q: %q,\n", p.rawName(f), p.sigKey(f))
 					}
 				}
 			}
